@@ -124,8 +124,15 @@ def classify(vr, maps, image_lines, fnkeys_by_line):
         anyspan = [s for s in spans if s.get('file_name', '').endswith('image.rs')]
         fnk = None
         # the function whose body contains a non-clause span (exit / call site); fall back to primary
-        cand = ([s['line_start'] for s in primary if s['line_start'] not in maps['linemap']]
-                + [s['line_start'] for s in anyspan if s['line_start'] not in maps['linemap']] + [s['line_start'] for s in primary])
+        if 'precondition' in msg.lower():
+            # the failing function is the one containing the CALL SITE (primary span), even when that line is a labelled
+            # proof line; the other span is the callee's `requires` clause
+            cand = [s['line_start'] for s in primary] + [s['line_start'] for s in anyspan if s['line_start'] not in maps['linemap']]
+        else:
+            secondary_spans = [s for s in anyspan if not s.get('is_primary')]
+            cand = ([s['line_start'] for s in secondary_spans if s['line_start'] not in maps['linemap']]
+                    + [s['line_start'] for s in primary if s['line_start'] not in maps['linemap']]
+                    + [s['line_start'] for s in anyspan if s['line_start'] not in maps['linemap']] + [s['line_start'] for s in primary])
         for ln in cand:
             k = fnkeys_by_line(ln)
             if k:
@@ -645,7 +652,8 @@ def decide_one(p, a, seed, t0, vr, cr, seeds, kr, fails, maps, image, lookup, co
         # std macro, ...) must not end in OK
         if f['kind'] == 'verification' and not f['labels']:
             r = default_safety(f['fn'], contracts) if f['fn'] else {'props': [], 'secondary': []}
-            if not r['props'] and not r['secondary'] and not (f['fn'] or '').startswith('vf_'):
+            is_fmt = bool(re.search(r' as (Debug|Display|fmt::Debug|fmt::Display)>::fmt$', f['fn'] or ''))   # text formatting of values: no codec path
+            if not r['props'] and not r['secondary'] and not (f['fn'] or '').startswith('vf_') and not is_fmt:
                 g = dict(f)
                 g['undecided'] = True
                 inconclusive.append(g)
